@@ -170,20 +170,25 @@ def run(prog, rep):
                         % (short, 'array' if per_item[short] == 1 else 'map'), count=2)
             continue
         for f in sorted(dts, key=lambda g: g.id):
-            work.append((short, f.cls.replace('BitSerializer::MsgPack::Detail::', ''), f))
-    for short, site, f in work:
+            work.append((short, f.cls.replace('BitSerializer::MsgPack::Detail::', ''), f, rec))
+    for short, site, f, rec in work:
         rep.touch(f)
         loops = [n for n in f.walk() if n['k'] in ('ForStmt', 'WhileStmt')]
         good = None
         for lp in loops:
             cond = child(lp, 'cond') if lp['k'] == 'ForStmt' else lp['c'][0]
-            names = set(m.get('m') for m in f.walk(cond) if m['k'] == 'MemberExpr') if cond else set()
-            ops = [m.get('op') for m in f.walk(cond) if m['k'] == 'BinaryOperator'] if cond else []
-            if not ({'mSize'} <= names and ops and ops[0] in ('<', '!=')):
+            cs = strip(cond) if cond else None
+            if cs is None or cs['k'] != 'BinaryOperator' or cs.get('op') not in ('<', '!='):
                 continue
+            lhs, rhs = strip(cs['c'][0]), strip(cs['c'][1])
+            # "<cursor> < <size>": the bound is a data member of the scope, the cursor a member or a local initialised from one
+            if rhs is None or rhs['k'] != 'MemberExpr' or lhs is None or lhs['k'] not in ('MemberExpr', 'DeclRefExpr'):
+                continue
+            cursor = lhs.get('m') or lhs.get('n')
             skips = [m for m in f.walk(lp) if m['k'] == 'CXXMemberCallExpr' and (f.callee(m) or {}).get('n') == 'SkipValue']
+            members = set(fl['n'] for fl in rec.get('fields', []))
             incs = [m for m in f.walk(lp) if m['k'] == 'UnaryOperator' and m.get('op') == '++'
-                    and (strip(m['c'][0]) or {}).get('m') == 'mIndex']
+                    and (strip(m['c'][0]) or {}).get('k') == 'MemberExpr' and (strip(m['c'][0]) or {}).get('m') in members]
             good = (len(skips), len(incs), f.loc(lp))
             break
         if good is None:
